@@ -10,6 +10,7 @@ C13 driver ops:
       writes of Gen.packetWrite), thread 1 = request goroutine (one response job per label,
       program Gen.responseTcp); output: the chunk labels handed to conn.Write in order
   stream <raw-hex> F <n> {<ch> <payload-hex>} C <n> {<cseq>}     the specification's verdict on a TCP stream
+      (verdict: the property; exact: the stream is exactly the delivered packets and the answers; partial: an unfinished run)
   msg <hex>                                                     is a WebSocket message exactly one unit?
   pw <ch> <data-hex>                                            Packet.Write: the chunks written
   wsc <ch> <data-hex>                                           the ws consumers: the messages sent (Gen flag skipEmpty)
@@ -56,7 +57,8 @@ def handleStream (raw : String) (rest : List String) : String :=
         | _, _ => none
       | _, _ => none
     match frames n.toNat! r with
-    | some (fs, "C" :: _ :: cs) => "verdict=" ++ judgeStream s fs (cs.map String.toNat!) ++ " partial=" ++ judgePartial s fs
+    | some (fs, "C" :: _ :: cs) =>
+      "verdict=" ++ judgeStream s fs ++ " exact=" ++ exactStream s fs (cs.map String.toNat!) ++ " partial=" ++ judgePartial s fs
     | _ => "bad-op"
   | _, _ => "bad-op"
 
